@@ -286,9 +286,55 @@ def image_constructor_sites(repo, tier):
                 if nf is not None:
                     oid = f"C04/{short(rel)}::{q}/call-pre#{cls}-{nf}-positive@{k}"
                     obls.append(_number_obligation(oid, rel, mod, ix, call, fnode, cls, nf, kw.get(nf), defaults.get(nf), nf in kw))
+    # ---- indirect construction: an image class used as a value (alias, functools.partial, factory argument) would build
+    # images outside the call sites above
+    n_val = 0
+    for rel, mod in modules(repo).items():
+        ix = Index(mod)
+        per_fn = {}
+        for n in ast.walk(mod.tree):
+            if isinstance(n, ast.Name) and n.id in classes and isinstance(n.ctx, ast.Load) and _is_value_use(ix, n):
+                q, _f = ix.enclosing(n)
+                per_fn.setdefault(q, []).append(n)
+        for q, nodes in sorted(per_fn.items()):
+            for k, n in enumerate(ordered(nodes)):
+                n_val += 1
+                o = ground_obligation(f"C04/{short(rel)}::{q}/call-pre#{n.id}-class-used-as-a-value@{k}", False,
+                                      f"{rel}:{n.lineno} the image class {n.id} is passed around as a value: objects may be built at a call "
+                                      f"site that is not checked for size_bytes == len(payload) / number >= 1", rel, definite=False)
+                o["replay_hint"] = {"kind": "image-size", "class": n.id}
+                obls.append(o)
     obls.append(ground_obligation("C04/package/call-pre#image-constructor-sites-scanned", n_sites >= 20,
                                   f"{n_sites} image constructor call sites in the parsing package", "package"))
     return {"obligations": obls, "functions": fns}
+
+
+def _is_value_use(ix, name_node):
+    """An image class name that is neither called, nor part of an annotation / isinstance / class header / typing construct."""
+    p = ix.parent.get(id(name_node))
+    if isinstance(p, ast.Call) and p.func is name_node:
+        return False
+    if isinstance(p, ast.Call) and isinstance(p.func, ast.Name) and p.func.id in ("isinstance", "issubclass", "cast", "TypeVar"):
+        return False
+    if isinstance(p, ast.Attribute):           # Class.attr (class constants): not construction
+        return False
+    cur = name_node
+    for a in ix.ancestors(name_node):
+        if isinstance(a, ast.AnnAssign) and cur is a.annotation:
+            return False
+        if isinstance(a, ast.arg) or (isinstance(a, (ast.FunctionDef, ast.AsyncFunctionDef)) and cur is a.returns):
+            return False
+        if isinstance(a, ast.ClassDef) and cur in a.bases:
+            return False
+        if isinstance(a, ast.Subscript) and dotted(a.value).split(".")[-1] in ("List", "list", "Optional", "Dict", "dict", "Tuple", "tuple", "Iterator",
+                                                                                   "Generator", "Sequence", "Iterable", "Union", "Type", "type", "ClassVar"):
+            return False
+        if isinstance(a, ast.ExceptHandler):
+            return False
+        if isinstance(a, ast.stmt):
+            break
+        cur = a
+    return True
 
 
 def _size_obligation(oid, rel, call, fnode, cls, pf, p_e, z_e, p_given, z_given):
@@ -540,7 +586,155 @@ def field_store_sites(repo, tier):
                         continue
                 obls.append(ground_obligation(oid, False, f"{loc} store to {ast.unparse(t)}: may overwrite the payload / size of an image after construction",
                                               rel, definite=False))
+    # ---- indirect stores: dataclasses.replace(obj, <field>=...) and setattr(obj, "<field>", ...)
+    protected = set(PAYLOAD_FIELDS) | {SIZE_FIELD} | set(NUMBER_FIELDS[:2])
+    n_ind = 0
+    for rel, mod in modules(repo).items():
+        ix = Index(mod)
+        per_fn = {}
+        for n in ast.walk(mod.tree):
+            if not isinstance(n, ast.Call):
+                continue
+            hits = []
+            d = dotted(n.func)
+            if d.split(".")[-1] == "replace" and (d in ("replace", "dataclasses.replace") and mod.imports.get("replace", "dataclasses.replace").startswith("dataclasses")
+                                                  or d == "dataclasses.replace") and not isinstance(n.func, ast.Attribute) | (d == "dataclasses.replace"):
+                n_ind += 1
+                if any(k.arg is None for k in n.keywords):
+                    hits.append(("**", None))
+                hits += [(k.arg, k.value) for k in n.keywords if k.arg in protected]
+            elif isinstance(n.func, ast.Name) and n.func.id == "setattr" and len(n.args) == 3:
+                n_ind += 1
+                names = _possible_strings(ix, n, n.args[1])
+                if names is None:
+                    hits.append(("?", n.args[2]))
+                else:
+                    hits += [(a, n.args[2]) for a in sorted(names & protected)]
+            elif isinstance(n.func, ast.Attribute) and n.func.attr == "__setattr__" and len(n.args) == 2:
+                n_ind += 1
+                names = _possible_strings(ix, n, n.args[0])
+                hits += [("?", n.args[1])] if names is None else [(a, n.args[1]) for a in sorted(names & protected)]
+            if hits:
+                q, fnode = ix.enclosing(n)
+                per_fn.setdefault(q, []).append((n, fnode, hits))
+        for q, sites in sorted(per_fn.items()):
+            for k, (call, fnode, hits) in enumerate(sorted(sites, key=lambda x: (x[0].lineno, x[0].col_offset))):
+                loc = f"{rel}:{call.lineno}"
+                kws = dict(hits)
+                oid = f"C04/{short(rel)}::{q}/field-store#indirect-{'-'.join(sorted(str(h[0]) for h in hits))}@{k}"
+                target = call.args[0] if call.args else None
+                cls_q = q.split(".")[0] if "." in q else None
+                if isinstance(call.func, ast.Attribute) and call.func.attr == "__setattr__":
+                    target = call.func.value
+                is_self = (isinstance(target, ast.Name) and target.id == "self") or \
+                    (isinstance(target, ast.Call) and isinstance(target.func, ast.Name) and target.func.id == "super" and not target.args)
+                if is_self and cls_q is not None and cls_q not in img and "**" not in kws:
+                    obls.append(ground_obligation(oid, True, f"{loc} field of {cls_q} (not an image)", rel))
+                    continue
+                pf = next((f for f in PAYLOAD_FIELDS if f in kws), None)
+                if pf is not None and SIZE_FIELD in kws and not (set(kws) & set(NUMBER_FIELDS)):
+                    o = _size_obligation(oid, rel, call, fnode, "replace", pf, kws[pf], kws[SIZE_FIELD], True, True)
+                elif set(kws) <= set(NUMBER_FIELDS[:2]) and all(_store_positive(ix, fnode, ix.stmt_of(call), v)[0] for v in kws.values()):
+                    o = ground_obligation(oid, True, f"{loc} number field set to a value >= 1", rel)
+                else:
+                    o = ground_obligation(oid, False, f"{loc} {ast.unparse(call)[:90]}: payload / size / number of an object is rewritten after construction "
+                                                       f"without re-establishing size_bytes == len(payload) and number >= 1", rel, definite=False)
+                    o["replay_hint"] = {"kind": "image-size", "class": None}
+                obls.append(o)
+    obls.append(ground_obligation("C04/package/field-store#indirect-store-sites-scanned", True,
+                                  f"{n_ind} dataclasses.replace / setattr sites scanned for payload, size and number fields", "package"))
     return {"obligations": obls, "functions": []}
+
+
+def _possible_strings(ix, at, e, depth=0):
+    """Set of strings a name-argument can denote (constant; loop variable over a literal sequence, over a list built by
+    append() of tuples, or over a literal list returned by a module function), else None."""
+    if isinstance(e, ast.Constant) and isinstance(e.value, str):
+        return {e.value}
+    if not isinstance(e, ast.Name) or depth > 3:
+        return None
+    q, fnode = ix.enclosing(at)
+    cur = at
+    for a in ix.ancestors(at):
+        if isinstance(a, ast.For) and _within(cur, a.body):
+            pos = None
+            if isinstance(a.target, ast.Name) and a.target.id == e.id:
+                pos = -1
+            elif isinstance(a.target, (ast.Tuple, ast.List)):
+                for i, t in enumerate(a.target.elts):
+                    if isinstance(t, ast.Name) and t.id == e.id:
+                        pos = i
+            if pos is not None:
+                return _strings_of_iterable(ix, a, a.iter, pos, fnode, depth)
+        if a is fnode:
+            break
+        cur = a
+    return None
+
+
+def _elem_strings(ix, at, elt, pos, depth):
+    """Strings at position `pos` (-1: the element itself) of one element expression."""
+    if pos >= 0:
+        if not isinstance(elt, ast.Tuple) or pos >= len(elt.elts):
+            return None
+        elt = elt.elts[pos]
+    return _possible_strings(ix, at, elt, depth + 1)
+
+
+def _strings_of_iterable(ix, at, it, pos, fnode, depth):
+    if isinstance(it, ast.Call) and isinstance(it.func, ast.Attribute) and it.func.attr == "items" and isinstance(it.func.value, ast.Dict):
+        it = it.func.value
+    if isinstance(it, ast.Dict):
+        return {c.value for c in ast.walk(it) if isinstance(c, ast.Constant) and isinstance(c.value, str)}
+    if isinstance(it, (ast.List, ast.Tuple, ast.Set)):
+        out = set()
+        for elt in it.elts:
+            r = _elem_strings(ix, at, elt, pos, depth)
+            if r is None:
+                return None
+            out |= r
+        return out
+    if isinstance(it, ast.Name) and isinstance(fnode, (ast.FunctionDef, ast.AsyncFunctionDef)) and depth <= 3:
+        defs = single_defs(fnode, it.id)
+        out = set()
+        for d in defs:
+            if d[0] == "assign" and isinstance(d[1], (ast.List, ast.Tuple, ast.Set, ast.Dict)):
+                r = _strings_of_iterable(ix, d[2], d[1], pos, fnode, depth + 1)
+            elif d[0] == "unpack" and isinstance(d[1], ast.Call) and isinstance(d[1].func, ast.Name) and d[1].func.id in ix.mod.functions:
+                # name, ... = helper(): every return value of the helper is a tuple whose d[2]-th component is a literal sequence
+                callee = ix.mod.functions[d[1].func.id]
+                r = set()
+                rets = [n for n in own_walk(callee) if isinstance(n, ast.Return) and n.value is not None]
+                if not rets:
+                    r = None
+                for ret in rets:
+                    v = ret.value
+                    if not (isinstance(v, ast.Tuple) and d[2] < len(v.elts)):
+                        r = None
+                        break
+                    rr = _strings_of_iterable(ix, ret, v.elts[d[2]], pos, callee, depth + 1)
+                    if rr is None:
+                        r = None
+                        break
+                    r |= rr
+            else:
+                r = None
+            if r is None:
+                return None
+            out |= r
+        # elements added by <name>.append(<tuple>)
+        for n in own_walk(fnode):
+            if isinstance(n, ast.Call) and isinstance(n.func, ast.Attribute) and n.func.attr == "append" and isinstance(n.func.value, ast.Name) \
+                    and n.func.value.id == it.id and len(n.args) == 1:
+                r = _elem_strings(ix, n, n.args[0], pos, depth)
+                if r is None:
+                    return None
+                out |= r
+            elif isinstance(n, ast.Call) and isinstance(n.func, ast.Attribute) and n.func.attr in ("extend", "insert", "__iadd__") \
+                    and isinstance(n.func.value, ast.Name) and n.func.value.id == it.id:
+                return None
+        return out if defs else None
+    return None
 
 
 def _store_positive(ix, fnode, stmt, value):
@@ -588,6 +782,7 @@ class ChrAnalysis:
     def __init__(self, mod, ix, fnode, patterns):
         self.mod, self.ix, self.fnode, self.patterns = mod, ix, fnode, patterns
         self.names = {}
+        self.elem_of = {}      # iterable name -> z3 term of "an arbitrary element" under analysis
 
     # -- which compiled pattern does match variable `m` belong to? ----------------
     def pattern_of_match(self, name, at):
@@ -628,6 +823,30 @@ class ChrAnalysis:
             if r[0] == "unbounded":
                 return Range(v, [] if r[1] else [v >= 0], True, f"int() of regex group {e.args[0].value} (unbounded digits)")
             return Range(v, [v >= r[0], v <= r[1]], True, f"int() of regex group {e.args[0].value} ({info['width'][1]} {info['cls']} digits)")
+        # comprehension / loop variable over PATTERN.findall(...) of a pattern with exactly one group: the group's text
+        if isinstance(e, ast.Name):
+            src = None
+            for a in self.ix.ancestors(at):
+                if isinstance(a, (ast.ListComp, ast.GeneratorExp, ast.SetComp, ast.DictComp)):
+                    for g in a.generators:
+                        if isinstance(g.target, ast.Name) and g.target.id == e.id:
+                            src = g.iter
+                if a is self.fnode:
+                    break
+            if src is None and isinstance(self.fnode, (ast.FunctionDef, ast.AsyncFunctionDef)):
+                defs = single_defs(self.fnode, e.id)
+                if len(defs) == 1 and defs[0][0] == "for" and defs[0][2] is None:
+                    src = defs[0][1]
+            if isinstance(src, ast.Call) and isinstance(src.func, ast.Attribute) and src.func.attr == "findall":
+                tab = self.patterns.get(dotted(src.func.value))
+                if tab and sorted(tab) == [1]:
+                    r = R.int_range_of_group(tab[1], base)
+                    if r is not None:
+                        v = _iv("g")
+                        if r[0] == "unbounded":
+                            return Range(v, [] if r[1] else [v >= 0], True, "int() of the group of a findall() match (unbounded digits)")
+                        return Range(v, [v >= r[0], v <= r[1]], True, f"int() of the group of a findall() match ({tab[1]['width'][1]} {tab[1]['cls']} digits)")
+            return None
         # text[a:b] with constant width
         if isinstance(e, ast.Subscript) and isinstance(e.slice, ast.Slice) and e.slice.lower is not None and e.slice.upper is not None and e.slice.step is None:
             w = _const_difference(e.slice.upper, e.slice.lower)
@@ -719,7 +938,7 @@ class ChrAnalysis:
             if isinstance(a, (ast.ListComp, ast.GeneratorExp, ast.SetComp, ast.DictComp)):
                 for g in a.generators:
                     if isinstance(g.target, ast.Name) and g.target.id == name:
-                        res = self.iter_range(g.iter, at)
+                        res = self.element(g.iter, at)
                         self.names[key] = res
                         return res
             if a is self.fnode:
@@ -737,6 +956,41 @@ class ChrAnalysis:
         self.names[key] = res
         return res
 
+    def element(self, it, at, depth=0):
+        """Range of an arbitrary element of iterable expression `it` (None when not derivable).  The element is registered
+        under the iterable's name so that quantified guards (`not any(P(v) for v in X)`, `all(...)`) constrain it."""
+        r = self.iter_range(it, at)
+        if r is not None:
+            return r
+        if isinstance(it, (ast.ListComp, ast.GeneratorExp, ast.SetComp)) and len(it.generators) == 1:
+            r = self.expr(it.elt, it.elt)
+            if r is None:
+                return None
+            for c in it.generators[0].ifs:
+                b = self.cond(c, True)
+                if b is not None:
+                    r = Range(r.term, r.cons + [b], r.exact, r.why)
+                else:
+                    r = Range(r.term, r.cons, False, r.why)
+            return r
+        if isinstance(it, (ast.List, ast.Tuple)) and it.elts and len(it.elts) <= 16:
+            rs = [self.expr(e, at) for e in it.elts]
+            if all(x is not None for x in rs):
+                v = _iv("el")
+                return Range(v, [z3.Or([z3.And([v == x.term] + x.cons) for x in rs])], all(x.exact for x in rs), "literal sequence")
+        if isinstance(it, ast.Name) and depth < 3 and isinstance(self.fnode, (ast.FunctionDef, ast.AsyncFunctionDef)):
+            defs = single_defs(self.fnode, it.id)
+            if len(defs) == 1 and defs[0][0] == "assign":
+                r = self.element(defs[0][1], defs[0][2], depth + 1)
+                if r is not None:
+                    v = z3.Int(f"elem_{it.id}")
+                    r = Range(v, r.cons + [v == r.term], r.exact, f"element of {it.id}: " + r.why)
+                    self.elem_of[it.id] = r.term
+                return r
+        if isinstance(it, ast.Call) and isinstance(it.func, ast.Name) and it.func.id in ("list", "tuple", "sorted", "reversed", "iter", "set") and len(it.args) == 1:
+            return self.element(it.args[0], at, depth + 1)
+        return None
+
     def iter_range(self, it, at):
         if isinstance(it, ast.Call) and isinstance(it.func, ast.Name) and it.func.id == "range" and all(isinstance(a, ast.Constant) and isinstance(a.value, int) for a in it.args):
             vals = [a.value for a in it.args]
@@ -750,6 +1004,26 @@ class ChrAnalysis:
         """z3 Bool for a guard over analysed names (None if not understood)."""
         if isinstance(test, ast.UnaryOp) and isinstance(test.op, ast.Not):
             return self.cond(test.operand, not positive)
+        # any(P(v) for v in X) is false / all(P(v) for v in X) is true: P / not P holds for the element of X under analysis
+        if isinstance(test, ast.Call) and isinstance(test.func, ast.Name) and test.func.id in ("any", "all") and len(test.args) == 1 \
+                and isinstance(test.args[0], (ast.GeneratorExp, ast.ListComp)) and len(test.args[0].generators) == 1:
+            g = test.args[0].generators[0]
+            if isinstance(g.iter, ast.Name) and g.iter.id in self.elem_of and isinstance(g.target, ast.Name) and not g.ifs:
+                if (test.func.id == "any") == positive:
+                    return None                       # some element / not all: says nothing about this one
+                saved = self.names.get(g.target.id, "<unset>")
+                self.names[g.target.id] = Range(self.elem_of[g.iter.id], [], True, "element")
+                try:
+                    b = self.cond(test.args[0].elt, True)
+                finally:
+                    if saved == "<unset>":
+                        self.names.pop(g.target.id, None)
+                    else:
+                        self.names[g.target.id] = saved
+                if b is None:
+                    return None
+                return z3.Not(b) if test.func.id == "any" else b
+            return None
         if isinstance(test, ast.BoolOp):
             parts = [self.cond(v, True) for v in test.values]
             if isinstance(test.op, ast.And):
@@ -817,6 +1091,49 @@ def _patterns_of(mod):
     return out
 
 
+def char_source_sites(mod, ix):
+    """Every own-code construct that makes a character from an integer, as (node, kind, payload):
+      ('call', E)      chr(E)
+      ('map', X)       map(chr, X) -- one character per element of X
+      ('value', None)  any other use of the builtin `chr` as a value (alias, argument of an unknown function, builtins.chr)
+      ('format', E)    f"{E:c}", format(E, "c"), "%c" % E, "{:c}".format(E)
+      ('table', E)     an int ordinal as the value of a str.maketrans table."""
+    if "chr" in mod.functions:
+        return []
+    out = []
+    for n in ast.walk(mod.tree):
+        if isinstance(n, ast.Call) and isinstance(n.func, ast.Name) and n.func.id == "chr" and len(n.args) == 1 and not n.keywords:
+            out.append((n, "call", n.args[0]))
+        elif (isinstance(n, ast.Name) and n.id == "chr" and isinstance(n.ctx, ast.Load)) or \
+                (isinstance(n, ast.Attribute) and n.attr == "chr" and dotted(n.value) in ("builtins", "__builtins__")):
+            p = ix.parent.get(id(n))
+            if isinstance(p, ast.Call) and p.func is n:
+                if len(p.args) == 1 and not p.keywords and isinstance(n, ast.Name):
+                    continue                      # the plain call form above
+                out.append((n, "value", None))
+            elif isinstance(p, ast.Call) and isinstance(p.func, ast.Name) and p.func.id == "map" and len(p.args) == 2 and p.args[0] is n:
+                out.append((p, "map", p.args[1]))
+            else:
+                out.append((n, "value", None))
+        elif isinstance(n, ast.FormattedValue) and isinstance(n.format_spec, ast.JoinedStr) \
+                and any(isinstance(v, ast.Constant) and str(v.value).endswith("c") for v in n.format_spec.values):
+            out.append((n, "format", n.value))
+        elif isinstance(n, ast.Call) and isinstance(n.func, ast.Name) and n.func.id == "format" and len(n.args) == 2 \
+                and isinstance(n.args[1], ast.Constant) and str(n.args[1].value).endswith("c"):
+            out.append((n, "format", n.args[0]))
+        elif isinstance(n, ast.BinOp) and isinstance(n.op, ast.Mod) and isinstance(n.left, ast.Constant) and isinstance(n.left.value, str) \
+                and "%c" in n.left.value:
+            out.append((n, "format", n.right if not isinstance(n.right, ast.Tuple) else None))
+        elif isinstance(n, ast.Call) and isinstance(n.func, ast.Attribute) and n.func.attr == "format" and isinstance(n.func.value, ast.Constant) \
+                and isinstance(n.func.value.value, str) and ":c}" in n.func.value.value:
+            out.append((n, "format", n.args[0] if len(n.args) == 1 else None))
+        elif isinstance(n, ast.Call) and dotted(n.func) == "str.maketrans" and n.args and isinstance(n.args[0], ast.Dict):
+            for v in n.args[0].values:
+                if isinstance(v, ast.Constant) and isinstance(v.value, int) and not isinstance(v.value, bool):
+                    out.append((v, "table", v))
+    return out
+
+
 def chr_sites(repo, tier):
     obls = []
     n_sites = 0
@@ -824,29 +1141,34 @@ def chr_sites(repo, tier):
         ix = Index(mod)
         pats = _patterns_of(mod)
         per_fn = {}
-        for n in ast.walk(mod.tree):
-            if isinstance(n, ast.Call) and isinstance(n.func, ast.Name) and n.func.id == "chr" and len(n.args) == 1 and "chr" not in mod.functions:
-                q, fnode = ix.enclosing(n)
-                per_fn.setdefault(q, []).append((n, fnode))
+        for (n, kind, payload) in char_source_sites(mod, ix):
+            q, fnode = ix.enclosing(n)
+            per_fn.setdefault(q, []).append((n, fnode, kind, payload))
         for q, sites in sorted(per_fn.items()):
-            for k, (call, fnode) in enumerate(sorted(sites, key=lambda x: (x[0].lineno, x[0].col_offset))):
+            for k, (node, fnode, kind, payload) in enumerate(sorted(sites, key=lambda x: (x[0].lineno, x[0].col_offset))):
                 n_sites += 1
                 oid = f"C04/{short(rel)}::{q}/wf#chr-site-{k}"
-                obls.append(_chr_obligation(oid, rel, mod, ix, fnode, call, pats, q, k))
-    obls.append(ground_obligation("C04/package/wf#chr-sites-scanned", True, f"{n_sites} chr() call sites in the parsing package", "package"))
+                obls.append(_chr_obligation(oid, rel, mod, ix, fnode, node, pats, q, k, kind, payload))
+    obls.append(ground_obligation("C04/package/wf#chr-sites-scanned", True, f"{n_sites} int->character sites (chr calls, chr as a value, "
+                                  f"'c' formats, translate tables) in the parsing package", "package"))
     return {"obligations": obls, "functions": []}
 
 
-def _chr_obligation(oid, rel, mod, ix, fnode, call, pats, q, k):
+def _chr_obligation(oid, rel, mod, ix, fnode, call, pats, q, k, kind="call", payload=None):
     loc = f"{rel}:{call.lineno}"
     src = ast.unparse(call)
     hint = {"kind": "chr", "file": rel, "function": q, "ordinal": k, "source": src}
     # a character used only as a dictionary key is not a source of output text
     p = ix.parent.get(id(call))
-    if isinstance(p, ast.Subscript) and p.slice is call and isinstance(p.ctx, ast.Store):
+    if kind == "call" and isinstance(p, ast.Subscript) and p.slice is call and isinstance(p.ctx, ast.Store):
         return ground_obligation(oid, True, f"{loc} {src} is only used as a dictionary key (not a source of text)", rel)
     A = ChrAnalysis(mod, ix, fnode, pats)
-    r = A.expr(call.args[0], call)
+    if kind == "value" or payload is None:
+        o = ground_obligation(oid, False, f"{loc} `{src}`: the builtin chr / a character format is used in a way whose integer argument "
+                                           f"is not visible here", rel, definite=False)
+        o["replay_hint"] = hint
+        return o
+    r = A.element(payload, call) if kind == "map" else A.expr(payload, call)
     if r is None:
         o = ground_obligation(oid, False, f"{loc} {src}: integer range of the argument not derivable", rel, definite=False)
         o["replay_hint"] = hint
@@ -975,6 +1297,47 @@ def decode_sites(repo, tier):
                     obls.append(o)
                     continue
                 obls.append(ground_obligation(oid, True, f"{loc} codec in {sorted(codecs_)}, errors={ev!r}: the decoder never emits surrogates", rel))
+    # ---- other text producers: a call that takes an `errors=` handler (open, TextIOWrapper, read_text, ...) and decoders of
+    # escape syntax (json.loads, ast.literal_eval, codecs.escape_decode ...), which turn "\\ud800" into a lone surrogate
+    ESCAPE_DECODERS = ("json.loads", "json.load", "ast.literal_eval", "codecs.escape_decode", "codecs.getdecoder", "codecs.getreader",
+                       "codecs.iterdecode", "codecs.getincrementaldecoder", "codecs.open")
+    n_other = 0
+    for rel, mod in modules(repo).items():
+        ix = Index(mod)
+        per_fn = {}
+        for n in ast.walk(mod.tree):
+            if not isinstance(n, ast.Call):
+                continue
+            d = dotted(n.func)
+            canon = d
+            if d and d.split(".")[0] in mod.imports:
+                canon = mod.imports[d.split(".")[0]] + d[len(d.split(".")[0]):]
+            err = next((k.value for k in n.keywords if k.arg == "errors"), None)
+            is_decode_like = (isinstance(n.func, ast.Attribute) and n.func.attr in ("decode", "encode")) or (isinstance(n.func, ast.Name) and n.func.id == "str") \
+                or d == "codecs.decode"
+            why = None
+            definite = False
+            if err is not None and not is_decode_like:
+                if isinstance(err, ast.Constant) and err.value in UNSAFE_ERRORS:
+                    why, definite = f"errors={err.value!r} passes lone surrogates into the text", True
+                elif not (isinstance(err, ast.Constant) and err.value in SAFE_ERRORS):
+                    why = "error handler is not a constant from the safe list"
+            if why is None and canon in ESCAPE_DECODERS:
+                why = f"{canon} decodes escape syntax: a \\\\uD800 escape in the input becomes a lone surrogate"
+            if why is None:
+                if err is not None and not is_decode_like:
+                    n_other += 1
+                continue
+            n_other += 1
+            q, fnode = ix.enclosing(n)
+            per_fn.setdefault(q, []).append((n, why, definite))
+        for q, sites in sorted(per_fn.items()):
+            for k, (call, why, definite) in enumerate(sorted(sites, key=lambda x: (x[0].lineno, x[0].col_offset))):
+                o = ground_obligation(f"C04/{short(rel)}::{q}/wf#text-producer-site-{k}", False, f"{rel}:{call.lineno} {ast.unparse(call)[:80]}: {why}", rel, definite=definite)
+                o["replay_hint"] = {"kind": "decode", "file": rel, "function": q, "ordinal": k, "source": ast.unparse(call)[:80]}
+                obls.append(o)
+    obls.append(ground_obligation("C04/package/wf#other-text-producers-scanned", True,
+                                  f"{n_other} calls with an errors= handler or escape-syntax decoders outside the decode sites", "package"))
     obls.append(ground_obligation("C04/package/wf#decode-sites-scanned", n_sites >= 20, f"{n_sites} bytes->str decode sites in the parsing package", "package"))
     return {"obligations": obls, "functions": []}
 
